@@ -432,6 +432,15 @@ theorem interleaved_run (tables : List Tbl) (iters order : List Nat) (res : List
   rw [runEvents_starts] at h
   exact interleaved tables iters order res h
 
+/-- A started iterator keeps its snapshot. Whatever happens after an iterator has been started —
+other iterators started, `set_limits` on the live format, records appended, at any point and also while
+its lines are still being consumed — the lines it was given are exactly those of its table as the table
+was at that moment, and they stay in the result untouched (`<+:` is "is a prefix of"). -/
+theorem snapshot_kept (tables : List Tbl) (iters : List Nat) (i : Nat) (later : List Ev)
+    (acc res : List (Nat × List Line)) (h : runEvents tables iters (Ev.start i :: later) acc = .ok res) :
+    ∃ ti t ls, iters[i]? = some ti ∧ tables[ti]? = some t ∧ lines t = .ok ls ∧ acc ++ [(i, ls)] <+: res :=
+  runEvents_start tables iters i later acc res h
+
 /-- A format object carries everything over. A table built with `fmt_obj=` from the format of a
 table `t` (fresh or printed: `WidthsFaithful` holds for every table made by the constructor or the
 setter and is kept by printing) with the same records, header and footer prints exactly what `t`
